@@ -11,7 +11,7 @@ new_files = subprocess.run(["git", "-C", "/repo", "ls-files", "--others", "--exc
 for f in files:
     old = subprocess.run(["git", "-C", "/repo", "show", "HEAD:" + f], capture_output=True, text=True).stdout
     new = open("/repo/" + f).read()
-    marker = "#[cfg(test)]"
+    marker = "#[cfg(test)]\nmod tests"
     if marker in new:
         ns = new[:new.index(marker)]
         if marker in old:
